@@ -612,6 +612,15 @@ func (m *machine) userChangesMode(viaCommands bool) {
 		if bad {
 			req = []string{"bogus", "", "on off", "ON", "on;", "uploaded"}[t.Draw(6)]
 		}
+		// A valid mode with white space around it (read from a settings file, an
+		// environment variable, a terminal line). Whether that is a valid request is
+		// not something the statement says: it is either refused, leaving the file
+		// as it was, or accepted, and then reading back yields the mode itself.
+		padded := !bad && t.Bool(1, 6)
+		if padded {
+			req = []string{" ", "", "\t", "\n"}[t.Draw(4)] + want + []string{" ", "\n", "\r\n", "\t", "  "}[t.Draw(5)]
+			m.s.Probe("setmode-with-white-space")
+		}
 		var err error
 		var gotMode string
 		var gotTime time.Time
@@ -637,6 +646,12 @@ func (m *machine) userChangesMode(viaCommands bool) {
 			if err == nil {
 				m.fail("invalid-mode-accepted", "SetModeAsOf(%q) succeeded", req)
 			} else if !bytes.Equal(newRaw, oldRaw) {
+				m.fail("invalid-mode-changed-file", "SetModeAsOf(%q) failed but changed the mode file from %q to %q", req, oldRaw, newRaw)
+			}
+			return
+		}
+		if padded && err != nil {
+			if !bytes.Equal(newRaw, oldRaw) {
 				m.fail("invalid-mode-changed-file", "SetModeAsOf(%q) failed but changed the mode file from %q to %q", req, oldRaw, newRaw)
 			}
 			return
